@@ -5,7 +5,7 @@
 From Coq Require Import String.
 From Coq Require Import List ZArith Bool Arith Lia.
 Import ListNotations.
-Require Import C19.Model C19.ProofsShape C19.ProofsGuard C19.ProofsCat C19.ProofsDiag C19.gen.Guards C19.GenProofs.
+Require Import C19.Model C19.ProofsShape C19.ProofsGuard C19.ProofsCat C19.ProofsDiag C19.ProofsAdd C19.gen.Guards C19.GenProofs.
 Open Scope nat_scope.
 
 (* ---- the rules (spec), for shapes of ALL ranks -------------------------------------------------------- *)
@@ -126,6 +126,90 @@ Theorem C19_check_args_reached :
   forallb (fun x => let '(c, d, reaches, _) := x in String.eqb d "LinearOperator" || reaches) ctor_table = true.
 Proof. exact check_args_reached. Qed.
 
+(* ---- OPERATOR second operands ---------------------------------------------------------------------------- *)
+
+(* torch never combines elementwise two (batches of) square matrices of different sizes unless one of them is 1 x 1 —
+   whatever the batch shapes (all ranks) *)
+Theorem C19_square_operands_need_equal_size : forall x y n m, n <> m -> n <> 1 -> m <> 1 ->
+  torch_elementwise_shape (x ++ [n; n]) (y ++ [m; m]) = None.
+Proof. exact square_sizes_must_match. Qed.
+
+(* The function TRANSLATED from ConstantDiagLinearOperator.__add__ (ConstantDiagLinearOperator operand), for all batch
+   shapes and all sizes: it returns only what torch accepts for the dense operands, with torch's shape; operands of
+   different sizes are ALWAYS refused; on operands of the same size it is exact. *)
+Theorem C19_constdiag_add_guard : forall x y n m,
+  (forall s, gen_constdiag_add (x ++ [n; n]) (y ++ [m; m]) = Ok s ->
+             torch_elementwise_shape (x ++ [n; n]) (y ++ [m; m]) = Some s) /\
+  (n <> m -> gen_constdiag_add (x ++ [n; n]) (y ++ [m; m]) = Raise) /\
+  gen_constdiag_add (x ++ [n; n]) (y ++ [n; n]) = lift (torch_elementwise_shape (x ++ [n; n]) (y ++ [n; n])).
+Proof.
+  intros x y n m. rewrite !gen_constdiag_add_eq. split; [|split].
+  - intro s. apply constdiag_add_sound.
+  - apply constdiag_add_rejects_sizes.
+  - apply constdiag_add_same_size.
+Qed.
+
+(* the same for the function TRANSLATED from ConstantDiagLinearOperator._mul_matrix (ConstantDiagLinearOperator operand) *)
+Theorem C19_constdiag_mul_guard : forall x y n m,
+  (forall s, gen_constdiag_mul_matrix (x ++ [n; n]) (y ++ [m; m]) = Ok s ->
+             torch_elementwise_shape (x ++ [n; n]) (y ++ [m; m]) = Some s) /\
+  (n <> m -> gen_constdiag_mul_matrix (x ++ [n; n]) (y ++ [m; m]) = Raise).
+Proof.
+  intros x y n m. rewrite !gen_constdiag_mul_matrix_eq. split.
+  - intro s. apply constdiag_mul_matrix_sound.
+  - apply constdiag_mul_matrix_rejects_sizes.
+Qed.
+
+(* DiagLinearOperator + DiagLinearOperator (TRANSLATED from DiagLinearOperator.__add__ and .add_diagonal) is EXACT: it
+   raises precisely when torch refuses the two dense matrices and otherwise returns torch's shape — all batches, all sizes *)
+Theorem C19_diag_add_exact : forall x y n m,
+  gen_diag_add (x ++ [n; n]) (y ++ [m; m]) = lift (torch_elementwise_shape (x ++ [n; n]) (y ++ [m; m])).
+Proof. intros. rewrite gen_diag_add_eq. apply diag_add_exact. Qed.
+
+(* DiagLinearOperator.add_diagonal(tensor): whatever passes is a diagonal that broadcasts against shape[:-1] *)
+Theorem C19_diag_add_diagonal_guard_sufficient : forall a d s,
+  gen_diag_add_diagonal a d = Ok s -> torch_broadcast (py_slice_to a (-1)) d <> None.
+Proof. intros a d s. rewrite gen_diag_add_diagonal_eq. apply diag_add_diagonal_sound. Qed.
+
+(* composed: whenever torch refuses two (batches of) square operands, every translated operator-operand override raises
+   (ConstantDiag + ConstantDiag, ConstantDiag * ConstantDiag, Diag + Diag, Dense + Dense, Zero * x) *)
+Theorem C19_operator_operand_overrides_raise : forall x y n m,
+  torch_elementwise_shape (x ++ [n; n]) (y ++ [m; m]) = None ->
+  gen_constdiag_add (x ++ [n; n]) (y ++ [m; m]) = Raise /\
+  gen_constdiag_mul_matrix (x ++ [n; n]) (y ++ [m; m]) = Raise /\
+  gen_diag_add (x ++ [n; n]) (y ++ [m; m]) = Raise /\
+  gen_dense_add (x ++ [n; n]) (y ++ [m; m]) = Raise /\
+  gen_zero_mul (x ++ [n; n]) (y ++ [m; m]) = Raise.
+Proof.
+  intros x y n m H.
+  rewrite gen_constdiag_add_eq, gen_constdiag_mul_matrix_eq, gen_diag_add_eq, gen_dense_add_eq, gen_zero_mul_eq.
+  apply operator_operand_overrides_raise. exact H.
+Qed.
+
+(* operands of ANY kind (tensors and operators): if every path of c.<e> in the unrestricted regenerated table passes the
+   exact guard, no shape torch refuses reaches a return (matmul / rmatmul of every class without its own override) *)
+Theorem C19_no_silent_broadcast_any_operand : forall c e a b, 2 <= length a ->
+  row_exact FUEL table c e = true -> spec_shape e a b = None -> ~ can_return FUEL table c e a b.
+Proof. exact no_silent_broadcast_table_all. Qed.
+
+(* FINITE TABLE (regenerated): every path of a binary entry point (matmul, rmatmul, __add__, __sub__, mul, add_diagonal)
+   of any class that returns self or the operand UNCHANGED has passed the exact guard of its entry point, except the
+   fast paths listed in GenProofs.pinned_fastpaths (a new fast path, or a check moved behind one, breaks the proof);
+   and the matmul / rmatmul cells that let some operand kind past the guard are the pinned overrides *)
+Theorem C19_fastpaths_within_pinned :
+  forallb (fun f => fastpath_guarded f || existsb (fastpath_same f) pinned_fastpaths) fastpaths = true /\
+  forallb (fun ce => mem_cell ce pinned_unguarded_exact) unguarded_all_matmul_cells = true.
+Proof. split; [exact fastpaths_within_pinned | exact unguarded_all_matmul_within_pinned]. Qed.
+
+(* ... and the full-strength statement is FALSE of the pinned fast paths: A + Zero returns A, A * Zero returns the
+   operand, Zero + A returns A, for all sizes n <> m (neither 1) and all batches *)
+Theorem C19_zero_operand_fastpaths_refuted : forall x y n m, n <> m -> n <> 1 -> m <> 1 ->
+  torch_elementwise_shape (x ++ [n; n]) (y ++ [m; m]) = None /\
+  pinned_add_zero_operand (x ++ [n; n]) (y ++ [m; m]) = Ok (x ++ [n; n]) /\
+  pinned_mul_zero_operand (x ++ [n; n]) (y ++ [m; m]) = Ok (y ++ [m; m]) /\
+  gen_zero_add (x ++ [n; n]) (y ++ [m; m]) = Ok (y ++ [m; m]).
+Proof. intros. rewrite gen_zero_add_eq. apply add_zero_operand_refuted; assumption. Qed.
+
 (* ---- pinned overrides that skip the base check: the full-strength statement is FALSE of them ------------- *)
 
 Theorem C19_diag_matmul_size1_inner_refuted : forall n p, n <> 1 ->
@@ -184,3 +268,15 @@ Example C19_nonvacuous_getitem :
   int_oob [2; 3; 3] [ISlice 2; IInt (-4); ISlice 3] = true /\
   lib_compute_getitem_size true [2; 3; 3] [ISlice 2; IInt (-3); ISlice 3] = Ok [2; 3].
 Proof. repeat split; vm_compute; reflexivity. Qed.
+
+(* operator operands: the hypotheses are satisfiable — concrete refused / accepted pairs of the seeded kind, and guarded
+   cells of the unrestricted table *)
+Example C19_nonvacuous_operator_operands :
+  torch_elementwise_shape [4; 4] [3; 3] = None /\
+  gen_constdiag_add [4; 4] [3; 3] = Raise /\ gen_constdiag_add [2; 4; 4] [2; 3; 3] = Raise /\
+  gen_constdiag_add [2; 4; 4] [4; 4] = Ok [2; 4; 4] /\ gen_constdiag_add [2; 4; 4] [3; 4; 4] = Raise /\
+  gen_diag_add [3; 3] [2; 3; 3] = Ok [2; 3; 3] /\ gen_diag_add [3; 3] [4; 4] = Raise /\
+  row_exact FUEL table "ToeplitzLinearOperator" E_matmul = true /\
+  row_exact FUEL table "SumLinearOperator" E_rmatmul = true /\
+  fastpaths <> [].
+Proof. repeat split; try (vm_compute; reflexivity). vm_compute. discriminate. Qed.
